@@ -298,7 +298,7 @@ func main() {
 		"timestamp / every signature byte / list edits, every evidence field and list edit) of every block of the family {height 1, height 2} x {0,1,3 txs} x {0,1,2 evidence} x {full, absent, nil-vote commit}, "+
 		"applied to the wire form, decoded with BlockFromProto and validated with BlockExecutor.ValidateBlock on a fresh executor and on one that validated the original "+
 		"plus blocks with 127, 128, 129, 130, 200 and 257 transactions (DeriveSha's insertion runs switch at indices 0 and 0x7f/0x80, the RLP index form at 128 and 256) with, for EVERY position k, replace / swap with k+1 / drop (NumTxs untouched or adjusted) / duplicate / insert, and Header.TxHash of every block compared with the root of {rlp(i) -> tx bytes} in go-ethereum v1.9.15's trie; Header.Hash() and the header wire form are checked per leaf field found by reflection. "+
-		"(c) E3: proto and rawdb round trips over the block family and the boundary product of commit / vote / proposal / part / id fields. "+
+		"(c) E3: blocks whose serialized length is 65535, 65536, 65537, 131071, 131072, 131073 (padded transaction payload) cut at the PRODUCTION part size types.BlockPartSizeBytes — every part through ToProto -> bytes -> PartFromProto, reassembly in every order with duplicates, and rawdb.WriteBlock -> ReadBlockPart / ReadBlock / ReadBlockMeta (a part of at most the part size is valid by the checker's own rule, not by Part.ValidateBasic); proto and rawdb round trips over the block family and the boundary product of commit / vote / proposal / part / id fields. "+
 		"A mutation counts only when the decoded block's canonical encoding differs from the original's")
 	r.Assume(
 		"SHA-256 / Keccak-256 / secp256k1 are sound (collisions are not searched)",
